@@ -73,6 +73,7 @@ package op
 
 //@ func op.CreateTokenResponse
 //@   requires valid(request) && valid(client) && valid(creator)
+//@   modifies wallclock, os(creator.Storage())
 //@   defines issued: err == nil ==> tokensIssued(result0, request, client, code, refreshToken)
 //@   ensures fail-closed: err != nil ==> result0 == nil
 //@   ensures valid: err == nil ==> result0 != nil
@@ -108,3 +109,45 @@ package op
 
 //@ func op.CreateJWT
 //@   requires valid(tokenRequest) && valid(storage) && valid(client)
+
+//@ func op.RefreshTokenRequestByRefreshToken
+//@   requires valid(storage)
+//@   ensures ok: err == nil ==> valid(result0)
+//@   ensures fail-closed: err != nil ==> result0 == nil
+
+// New Server interface path (client authentication and the registered-grant check happen in
+// webServer.withClient before this method is reached, see C05).
+//@ func op.LegacyServer.RefreshToken
+//@   requires valid(s) && valid(s.provider) && valid(r) && valid(r.Data) && valid(r.Client)
+//@   ensures fail-closed: err != nil ==> result0 == nil
+//@   ensures supported: err == nil ==> old(s.provider.GrantTypeRefreshTokenSupported())
+//@   ensures client-binding: err == nil ==> r.Client.GetID() == callres("op.RefreshTokenRequestByRefreshToken", 0).GetClientID()
+//@   ensures scopes: err == nil ==> scopesNarrowed(callres("op.RefreshTokenRequestByRefreshToken", 0), r.Data.Scopes)
+//@   ensures issued: err == nil ==> result0 != nil && tokensIssued(as(result0.Data, "*oidc.AccessTokenResponse"),
+//@        callres("op.RefreshTokenRequestByRefreshToken", 0), r.Client, "", r.Data.RefreshToken)
+
+// ---- OP-side token verifiers (C02, C08, C18) ----
+
+//@ func op.VerifyAccessToken
+//@   requires valid(v)
+//@   ensures clock: old(wallclock) <= wallclock
+//@   ensures valid: err == nil ==> valid(claims)
+//@   ensures issuer: err == nil ==> claims.GetIssuer() == v.Issuer
+//@   ensures signature: err == nil ==> sigChecked(token, jwtPayload(token), v.KeySet, v.SupportedSignAlgs)
+//@   ensures unexpired: err == nil ==> old(wallclock) + v.Offset < claims.GetExpiration()
+//@   ensures zero-on-error: err != nil ==> iszero(claims)
+
+// An expired but otherwise valid hint is handed back together with an IDTokenHintExpiredError
+// (logout may still trust it); every other failure returns no claims.
+//@ func op.VerifyIDTokenHint
+//@   requires valid(v)
+//@   ensures clock: old(wallclock) <= wallclock
+//@   ensures valid: err == nil || typeis(err, "IDTokenHintExpiredError") ==> valid(claims)
+//@   ensures issuer: err == nil || typeis(err, "IDTokenHintExpiredError") ==> claims.GetIssuer() == v.Issuer
+//@   ensures signature: err == nil || typeis(err, "IDTokenHintExpiredError") ==> sigChecked(token, jwtPayload(token), v.KeySet, v.SupportedSignAlgs)
+//@   ensures acr: (err == nil || typeis(err, "IDTokenHintExpiredError")) && v.ACR != nil ==> callres("dyn:acr", 0) == nil
+//@   ensures unexpired: err == nil ==> old(wallclock) + v.Offset < claims.GetExpiration()
+//@   ensures zero-otherwise: err != nil && !typeis(err, "IDTokenHintExpiredError") ==> iszero(claims)
+
+//@ loop op.intercept$1#1
+//@   invariant bounds: 0 - 1 <= i && i < len(interceptors)
